@@ -72,7 +72,10 @@ CLAIMED = {
                  'size F ≥ 2K−1 (no wrap-around inside a block, the ⌈(n+2h)/step⌉ blocks cover every output); T symmetric; '
                  'the default FFT size is admissible; whatever the constructor accepts satisfies the hypothesis of the '
                  'overlap-save theorem.  The executable kernels, the constructor and the dense scatter are compared with '
-                 'the implementation over (n, K, fft_size, batch shapes, dtype, 64-bit mode on/off) × four methods.'),
+                 'the implementation over (n, K, fft_size, batch shapes, dtype, 64-bit mode on/off) × four methods.  Closed '
+                 'form (Props/C09Closed.lean): in the list denotation used by C01–C06 a Toeplitz leaf with an un-batched band '
+                 'IS the banded product along the last axis of every leaf; the method and FFT size do not enter it; all four '
+                 'evaluation functions and every accepted configuration compute it; it is self-adjoint.'),
         'note': ('Trusted: Lean kernel + Mathlib + standard axioms; A3 (FFT = exact circular convolution; FFT accuracy is '
                  'runtime, tolerance 1e-3 relative on those channels); the dense scatter is validated differentially '
                  '(entry-wise against the specification on every run), its index arithmetic is not yet a theorem; batch '
@@ -102,7 +105,10 @@ CLAIMED = {
                  'identically before and after reduction; PᵀP is the diagonal of hit counts because the rotations cancel and '
                  'indexᵀ∘index is the multiplicity diagonal.  The rotation matrix and per-sample acquisition are compared with '
                  'the model; an independent NumPy pointing model (Euler rotation, healpy.vec2pix, QU rotation) is the oracle for '
-                 'create_projection_operator, create_acquisition (reduced and unreduced) and PᵀP, in both 64-bit modes.'),
+                 'create_projection_operator, create_acquisition (reduced and unreduced) and PᵀP, in both 64-bit modes.  Closed '
+                 'form (Props/C16Closed.lean): the chains the two factories build, interpreted in the list denotation of '
+                 'C01–C06, satisfy the same four statements (projection, acquisition, reduced acquisition via '
+                 'C01.reduceTop_sound_closed, PᵀP = hit counts) with the pixel hit as a parameter.'),
         'note': ('PARTIAL: arccos, arctan2 and the HEALPix lookup (A5, A8) are not modelled — the map from the rotated direction '
                  'to the pixel is validated differentially against healpy only (samples within 1e-4 rad of a pixel boundary are '
                  'skipped). Trusted: Lean kernel + Mathlib + standard axioms.'),
@@ -299,9 +305,12 @@ CLAIMED = {
                  'validation / rule application, which is compared with the implementation.  Oracle on the implementation: the '
                  'dense matrix against numpy hstack / block_diag / vstack of the blocks\' dense matrices in pytree-leaf order for '
                  'lists, tuples, dicts with unsorted keys, nested containers, single blocks and pytree-valued blocks; transposes; '
-                 'block-wise inverse; reduced products.'),
+                 'block-wise inverse; reduced products.  Closed form (Props/C10Closed.lean): in the list denotation, with '
+                 'asMatrix of C04, the matrix of a block diagonal / row / column is the block-diagonal arrangement / horizontal '
+                 'concatenation / vertical stack of the blocks\' matrices, the action is that matrix times the flattened input, '
+                 'and the transpose of a row has the transposed matrix.'),
         'note': ('Trusted: Lean kernel + standard axioms; encoder (containers as treedef + leaves, as JAX flattens them). The '
-                 'identification of BlockSem with the Python mv methods is by the dense-matrix oracle, not by proof.'),
+                 'identification of the list denotation with the Python mv methods is by the dense-matrix oracle, not by proof.'),
         'technique': 'Lean 4 proof (list algebra) + differential correspondence of forms + dense-matrix oracle',
         'design_ref': '§5 C10',
     },
